@@ -58,6 +58,49 @@ class PlainLink(SymlinkNodeMixin):
         return "PlainLink(...)"
 
 
+class EqNode(Node):
+    """Record-like node: every instance compares equal to every other one and hashes alike."""
+
+    def __eq__(self, other):
+        return isinstance(other, EqNode)
+
+    def __ne__(self, other):
+        return not isinstance(other, EqNode)
+
+    def __hash__(self):
+        return 11
+
+
+class FalsyNode(Node):
+    """A node that is always falsy (e.g. an 'empty' container)."""
+
+    def __bool__(self):
+        return False
+
+
+class LenNode(Node):
+    """Container-like node: its length is its number of children, so every leaf is falsy."""
+
+    def __len__(self):
+        return len(self.children)
+
+
+class EqSlotLM(LightNodeMixin):
+    __slots__ = ["name"]
+
+    def __init__(self, name=None):
+        self.name = name
+
+    def __eq__(self, other):
+        return isinstance(other, EqSlotLM)
+
+    def __hash__(self):
+        return 13
+
+    def __repr__(self):
+        return "EqSlotLM(%r)" % (self.name,)
+
+
 def factory(clsname):
     """Return f(label) -> detached node of the named class carrying name=str(label)."""
     if clsname == "Node":
@@ -82,6 +125,14 @@ def factory(clsname):
             return SymlinkNode(target)
 
         return make_link
+    if clsname == "EqNode":
+        return lambda label: EqNode(str(label))
+    if clsname == "FalsyNode":
+        return lambda label: FalsyNode(str(label))
+    if clsname == "LenNode":
+        return lambda label: LenNode(str(label))
+    if clsname == "EqSlotLM":
+        return lambda label: EqSlotLM(str(label))
     if clsname == "MixNM":
         # a different NodeMixin-based class per node (they may share a tree)
         makers = [factory("Node"), factory("AnyNode"), factory("PlainNM"), factory("SymlinkNode")]
@@ -92,4 +143,7 @@ def factory(clsname):
     raise ValueError(clsname)
 
 
-TREE_CLASSES = ["Node", "AnyNode", "PlainNM", "SlotLM", "DictLM", "SymlinkNode", "MixNM", "MixLM"]
+# classes with their own __eq__/__hash__/__bool__/__len__ are ordinary users of the mixins: every property that
+# quantifies over "all trees" holds for them too (the harness itself only ever uses identity on nodes)
+SPECIAL_CLASSES = ["EqNode", "FalsyNode", "LenNode", "EqSlotLM"]
+TREE_CLASSES = ["Node", "AnyNode", "PlainNM", "SlotLM", "DictLM", "SymlinkNode", "MixNM", "MixLM"] + SPECIAL_CLASSES
